@@ -20,7 +20,7 @@ ASSUMPTIONS = ["strings are free of backslashes and line breaks (statement); HTM
 SHARDS = {"quick": 1, "thorough": 16}
 
 COMPONENTS = ["Foo", "Bar", "Baz", "My.Comp", "UI.Card"]
-STRS = ["hello", "a b", "it's", "say \"hi\"", "x=1;", "ünï", "50%", "", "{curly}", "a,b", "(p)"]
+STRS = ["hello", "a b", "it's", "say \"hi\"", "x=1;", "ünï", "50%", "", "{curly}", "a,b", "(p)", "a&b", "<i>x</i>", "x>y", "&amp;", "1 < 2 && 3"]
 
 
 class JTF:
